@@ -429,7 +429,7 @@ class TermDomain(Domain):
             if not body.local_ty(o["place"]["local"]).replace("& mut", "&mut").startswith("&mut"):
                 continue
             old = vals[i]
-            if isinstance(old, (Seq, Const)) or (isinstance(old, Agg) and old.kind != "closure"):
+            if isinstance(old, (Seq, Const, VecV)) or (isinstance(old, Agg) and old.kind != "closure"):
                 store = it.write_ref(store, a, T("mutated:" + name, old))
         return store
 
